@@ -343,6 +343,11 @@ func runC01(c *Ctx) {
 	c.Min("C01.G2", 6+9+8+4)
 	c.Min("C01.G3", 3)
 	c.Assume("each accepted step builds its model from (operation, previous model) only (C01.P1) and does not write the previous model (C12), so facts about one step extend to every history")
+	// "inside its anchoring window" is the window predicate of C09 (from <= t <= until, default until = from + delta):
+	// its decision on all weak orderings, the wiring of the check into the apply functions and the parser's hand-off
+	// are part of this check as well
+	runC09(c)
+
 }
 
 func numFields(n *types.Named) int {
